@@ -12,7 +12,7 @@ use crate::zalsa_local::ZalsaLocal;
 #[cfg_attr(kani, kani::unwind(4))]
 #[cfg_attr(salsa_verif_replay, test)]
 fn k_att_1_token_reset_at_outermost_scope_exit() {
-    let db = HDb { zalsa: crate::zalsa::verif::bare_zalsa(), local: ZalsaLocal::new() };
+    let db = HDb { zalsa: crate::zalsa::verif::bare_zalsa(), local: crate::zalsa_local::verif::local_static() };
     let tok = db.zalsa_local().cancellation_token();
     let cancel_before: bool = vk::any();
     if cancel_before {
